@@ -122,13 +122,13 @@ def eval : Nat → Store → Nat → Expr → Res Value
       | none => (.error (.unbound, loc), σ)
     -- a lambda expression evaluates to a procedure that remembers the current environment
     | .lambda lam _ => (.ok (.closure lam ρ), σ)
-    | .assign x e _ =>
+    | .assign x e loc =>
       match eval k σ ρ e with
       | (.error er, σ) => (.error er, σ)
       | (.ok v, σ) =>
         match σ.set ρ x v with
         | (true, σ) => (.ok .void, σ)
-        | (false, σ) => (.error (.unbound, none), σ)
+        | (false, σ) => (.error (.unbound, loc), σ)
     -- conditional: the test, then exactly one arm; only `#f` is false
     | .cond t c a _ =>
       match eval k σ ρ t with
